@@ -216,10 +216,11 @@ class ImplFn(Fn):
     `name: T = e`, `m = min(a, b)` on ints: shadowing `let`s); the only loop is the character scan
     `while v < B and s[v] (not) in CS: v += 1` -> `Py.scanWhile` (see `scan_loop`; any other `while` is refused)."""
 
-    def __init__(self, fdef, where, attrs, name):
+    def __init__(self, fdef, where, attrs, name, calls=None):
         super().__init__(fdef, where)
         self.attrs = attrs
         self.name = name
+        self.calls = calls or {}   # python global name -> (lean name, [arg types], result type)
         self.used = []
         self.fresh = 0
 
@@ -313,6 +314,12 @@ class ImplFn(Fn):
             sym = "==" if isinstance(n.ops[0], ast.Eq) else "!="
             t, r = self.bind([(tr[0][0], tr[0][2]), (tr[1][0], tr[1][2])], lambda xs: f"({xs[0]} {sym} {xs[1]})")
             return t, "bool", r
+        if isinstance(n, ast.Call) and isinstance(n.func, ast.Name) and n.func.id in self.calls and not n.keywords:
+            lean_name, arg_tys, res_ty = self.calls[n.func.id]
+            args = [self.rexpr(a) for a in n.args]
+            if [ty for _, ty, _ in args] != arg_tys or any(r for _, _, r in args):
+                self.bad(n, "call of a translated function with unexpected arguments")
+            return "(" + " ".join([lean_name] + [a for a, _, _ in args]) + ")", res_ty, False
         if isinstance(n, ast.Call) and isinstance(n.func, ast.Attribute) and n.func.attr == "startswith" and not n.keywords:
             s, ts, rs = self.rexpr(n.func.value)
             if ts != "str" or rs or not (1 <= len(n.args) <= 2):
@@ -450,10 +457,12 @@ class ImplFn(Fn):
         return f"def {self.name} {params}(instring : List Char) (loc : Int) : Py.Ret :=\n{body}"
 
 
-def translate_impls(classes, attrs, namespace, origin):
-    """classes: live element classes; translates each class's own `parseImpl`."""
+def translate_impls(classes, attrs, namespace, origin, calls=None, imports=()):
+    """classes: live element classes; translates each class's own `parseImpl`.
+    calls: python global name -> (live object it must be bound to, lean name, [arg types], result type)"""
     out = [
         "import PPModel.Base.PyStr",
+        *[f"import {m}" for m in imports],
         f"/-! GENERATED by harness/py2lean.py from the live source of {origin} — do not edit.",
         "    One Lean definition per `parseImpl` method; `self.<attr>` are parameters (sorted by name);",
         "    `none` = IndexError raised by an index expression, propagated as `Py.Ret.indexError`. -/",
@@ -467,7 +476,11 @@ def translate_impls(classes, attrs, namespace, origin):
             raise Untranslatable(f"{cls.__name__} has no parseImpl of its own")
         src = textwrap.dedent(inspect.getsource(fn))
         fdef = ast.parse(src).body[0]
-        out.append(ImplFn(fdef, f"{origin}:{cls.__name__}.parseImpl", attrs, f"{cls.__name__.lstrip('_')}_parseImpl").lean())
+        known = {}
+        for gname, (obj, lean_name, arg_tys, res_ty) in (calls or {}).items():
+            if fn.__globals__.get(gname) is obj:      # the name really is bound to the translated function
+                known[gname] = (lean_name, arg_tys, res_ty)
+        out.append(ImplFn(fdef, f"{origin}:{cls.__name__}.parseImpl", attrs, f"{cls.__name__.lstrip('_')}_parseImpl", known).lean())
     out.append(f"end {namespace}")
     return "\n".join(out) + "\n"
 
@@ -477,7 +490,17 @@ LEAF_ATTRS = {"match": "str", "matchLen": "int", "firstMatchChar": "str", "wordC
 
 def leaf_classes(pp):
     from pyparsing import core
-    return [pp.Empty, pp.NoMatch, pp.Literal, core._SingleCharLiteral, pp.StringEnd, pp.LineEnd, pp.WordStart, pp.WordEnd]
+    return [pp.Empty, pp.NoMatch, pp.Literal, core._SingleCharLiteral, pp.StringEnd, pp.LineEnd, pp.WordStart, pp.WordEnd,
+            pp.LineStart]
+
+
+def leaf_calls():
+    """module-level functions a leaf parseImpl may call: they are translated themselves (Gen/UtilSrc.lean)"""
+    from pyparsing import util
+    return {"col": (util.col, "PP.Gen.UtilSrc.col", ["int", "str"], "int")}
+
+
+LEAF_IMPORTS = ("PPProofs.Props.Gen.UtilSrc",)
 
 
 LOOP_ATTRS = {"notCharsSet": "chars", "initChars": "chars", "bodyChars": "chars", "minLen": "int", "maxLen": "int",
@@ -523,6 +546,6 @@ if __name__ == "__main__":
     if "--loops" in sys.argv:
         print(translate_impls(loop_classes(pp), LOOP_ATTRS, "PP.Gen.LoopSrc", "pyparsing/core.py"))
     elif "--leaves" in sys.argv:
-        print(translate_impls(leaf_classes(pp), LEAF_ATTRS, "PP.Gen.LeafSrc", "pyparsing/core.py"))
+        print(translate_impls(leaf_classes(pp), LEAF_ATTRS, "PP.Gen.LeafSrc", "pyparsing/core.py", leaf_calls(), LEAF_IMPORTS))
     else:
         print(translate([util.col, util.lineno, util.line], "PP.Gen.UtilSrc", "pyparsing/util.py"))
